@@ -48,6 +48,41 @@ def _wires(obj: type) -> list[str]:
     return [dump.get(f.name, f.name) for f in dataclasses.fields(obj)]
 
 
+def _const_pairs(d: ast.AST) -> list[list]:
+    out = []
+    if isinstance(d, ast.Dict):
+        for k, v in zip(d.keys, d.values):
+            if isinstance(k, ast.Constant) and isinstance(v, ast.Constant):
+                out.append([k.value, v.value])
+    return out
+
+
+def _ast_model_classes(src: str) -> list[dict]:
+    classes = []
+    for node in ast.parse(src).body:
+        if not isinstance(node, ast.ClassDef):
+            continue
+        rec: dict[str, Any] = {"name": node.name, "bases": [b.id for b in node.bases if isinstance(b, ast.Name)], "fields": [], "assigns": [], "load": [], "dump": []}
+        for it in node.body:
+            if isinstance(it, ast.AnnAssign) and isinstance(it.target, ast.Name):
+                rec["fields"].append(it.target.id)
+            elif isinstance(it, ast.Assign) and len(it.targets) == 1 and isinstance(it.targets[0], ast.Name):
+                v = it.value
+                if isinstance(v, ast.UnaryOp) and isinstance(v.op, ast.USub) and isinstance(v.operand, ast.Constant):
+                    rec["assigns"].append([it.targets[0].id, -v.operand.value])
+                elif isinstance(v, ast.Constant):
+                    rec["assigns"].append([it.targets[0].id, v.value])
+            elif isinstance(it, ast.ClassDef) and it.name == "Meta":
+                for m in it.body:
+                    if isinstance(m, ast.Assign) and len(m.targets) == 1 and isinstance(m.targets[0], ast.Name):
+                        if m.targets[0].id == "key_transform_with_load":
+                            rec["load"] = _const_pairs(m.value)
+                        elif m.targets[0].id == "key_transform_with_dump":
+                            rec["dump"] = _const_pairs(m.value)
+        classes.append(rec)
+    return classes
+
+
 def _ast_classes(src: str) -> list[dict]:
     tree = ast.parse(src)
     classes = []
@@ -106,6 +141,20 @@ def obs_naming(job: dict) -> Any:
     out["model_classes"] = []
     out["model_errors"] = []
     mdir = pdir / "models"
+    # the same modules as the PARSER sees them (duplicates kept): a member / field that is defined twice is a TypeError
+    # or a silent overwrite at import time, but both definitions are in the syntax tree
+    out["model_ast"] = []
+    if mdir.exists():
+        for p in sorted(mdir.glob("*.py")):
+            if p.name == "__init__.py":
+                continue
+            rec = {"file": p.name, "parse_ok": False, "classes": []}
+            try:
+                rec["classes"] = _ast_model_classes(p.read_text())
+                rec["parse_ok"] = True
+            except SyntaxError as e:
+                rec["parse_err"] = f"{e.msg} (line {e.lineno})"
+            out["model_ast"].append(rec)
     if mdir.exists():
         for p in sorted(mdir.glob("*.py")):
             if p.name == "__init__.py":
